@@ -2518,6 +2518,22 @@ class Interp:
                         "symmetric_difference_update", "subtract") and isinstance(obj, (list, set, dict)) \
                     and getattr(obj, "_frozen", False):
                 raise AbsMutation(f"{attr}() on an input container ({src(n)})", where)
+            _DUNDER_BIN = {"__mod__": ast.Mod(), "__add__": ast.Add(), "__mul__": ast.Mult(), "__rmul__": ast.Mult(),
+                           "__sub__": ast.Sub(), "__or__": ast.BitOr(), "__and__": ast.BitAnd()}
+            _DUNDER_CMP = {"__lt__": ast.Lt(), "__le__": ast.LtE(), "__gt__": ast.Gt(), "__ge__": ast.GtE(), "__ne__": ast.NotEq()}
+            if attr in _DUNDER_BIN and len(args) == 1 and not kwargs and hasattr(obj, attr):
+                # the operator spelled as a method call on a builtin value ("[%s to %s]".__mod__, list.__add__ ...)
+                return self.binop(_DUNDER_BIN[attr], obj, args[0], n)
+            if attr in _DUNDER_CMP and len(args) == 1 and not kwargs and hasattr(obj, attr):
+                return self.compare(_DUNDER_CMP[attr], obj, args[0], n)
+            if attr in ("__str__", "__repr__") and not args and isinstance(obj, (str, int, float, bool)):
+                return getattr(obj, attr)()
+            if attr == "__getitem__" and len(args) == 1 and isinstance(obj, (str, bytes, list, tuple)) and \
+                    isinstance(args[0], (int, slice)) and not isinstance(args[0], bool):
+                try:
+                    return obj[args[0]]
+                except IndexError as exc:
+                    raise AbsRaise(f"IndexError at {src(n)}: {exc}", where) from exc
             if isinstance(obj, (str, bytes)) and attr in _STR_METHODS:
                 if attr == "join":
                     args = [list(self.iterate(args[0]))]
